@@ -43,7 +43,11 @@ OnAcl(e) ==
   LET final == IF e.bypass THEN e.value ELSE AclMap(e.value)
       \* "fillbad": every other namespace field of the messages on the path holds a forbidden name (combination clause)
       mustDeny == final \notin Allowed \/ (e.variant = "fillbad" /\ e.siblings > 0)
-      bad == e.err # "" \/ e.denied # mustDeny \/ (e.denied /\ e.forwarded) \/ (~e.denied /\ ~e.forwarded)
+      \* "dirty2": the blob also holds invalid UTF-8 that the repair cannot fix (a non-failure string). Such a request may be refused
+      \* with an error whatever it names; what it must not do is get through with a forbidden name
+      unfix == e.variant = "dirty2"
+      bad == IF unfix THEN mustDeny /\ e.forwarded
+             ELSE e.err # "" \/ e.denied # mustDeny \/ (e.denied /\ e.forwarded) \/ (~e.denied /\ ~e.forwarded)
              \/ (e.forwarded /\ e.seen # final)
   IN FlagAll(IF bad THEN {<<l, "acl">>} ELSE {})
 \* every namespace leaf of a root type populated in ONE message: after the translation a descriptor-driven scan (which also opens
